@@ -232,11 +232,34 @@ pub fn gen_plan(seed: u64, run: u64, cfg: Config, sys: &SysZones) -> Generated {
             }
             menu.push(Some(name.clone()));
             menu.push(Some(format!(":{}", name)));
+            // a file of the same relative name in the process's working directory: relative
+            // names are relative to the zoneinfo directories, never to the cwd
+            if file_zones.len() > 1 && r.chance(1, 3) {
+                let other = file_zones[(file_zones.iter().position(|&x| x == k).unwrap() + 1) % file_zones.len()];
+                files0.push((name.clone(), other));
+                paths.push(name);
+            }
+        } else if r.chance(1, 4) {
+            // a name that exists only in the working directory, not in any zoneinfo directory
+            let name = format!("Sim/CwdOnly{}", k);
+            files0.push((name.clone(), k));
+            menu.push(Some(name.clone()));
+            menu.push(Some(format!(":{}", name)));
         }
     }
     for z in &pool {
         if let Some(s) = &z.rule {
             menu.push(Some(s.clone()));
+            // the colon form names a file, never a rule
+            if r.chance(1, 3) {
+                menu.push(Some(format!(":{}", s)));
+            }
+            // a file in the working directory that happens to be called like the rule
+            if r.chance(1, 6) {
+                if let Some(k) = any_file(r, &file_zones) {
+                    files0.push((s.clone(), k));
+                }
+            }
         }
     }
     // unreadable / unparsable / odd values
@@ -254,6 +277,8 @@ pub fn gen_plan(seed: u64, run: u64, cfg: Config, sys: &SysZones) -> Generated {
         ":Sim",
         "/sim",
         "AAA-25",
+        ":AAA-7BBB,M3.2.0,M11.1.0",
+        ":XYZ-3",
         "AAA3BBB,M13.1.0,M11.1.0",
         "\u{1F600}",
     ];
